@@ -10,7 +10,7 @@ def capacity(iw, signed):
     return (1 << (iw - (1 if signed else 0))) - 1
 
 
-def narrowing_sites(fn, explicit_only=False):
+def narrowing_sites(fn, explicit_only=False, sign_conversions=True):
     """(node id, source node id, capacity, description) for conversions that may lose value bits."""
     W = Width(fn)
     out = []
@@ -36,7 +36,7 @@ def narrowing_sites(fn, explicit_only=False):
             cap = capacity(nd["iw"], nd.get("is"))
             need = W.needed(inner)
             negative_possible = isrc.get("is") and not nd.get("is")
-            if (1 << need) - 1 <= cap and not negative_possible:
+            if (1 << need) - 1 <= cap and not (negative_possible and sign_conversions):
                 continue
             if isrc.get("enum") or nd.get("enum"):
                 continue
@@ -77,12 +77,12 @@ def value_term(fn, nid):
     return fn.term(nid)
 
 
-def r_narrow(F, S, fn, entry=frozenset(), explicit_only=False, label=None, engine=None):
+def r_narrow(F, S, fn, entry=frozenset(), explicit_only=False, label=None, engine=None, sign_conversions=True):
     eng = engine or Engine(F, S)
     eng.analyze(fn, frozenset(entry))
     out = []
     n = 0
-    for (nid, src, cap, desc) in narrowing_sites(fn, explicit_only):
+    for (nid, src, cap, desc) in narrowing_sites(fn, explicit_only, sign_conversions):
         site = final_site_facts(eng, fn, nid)
         if site is None:
             continue
